@@ -1,13 +1,10 @@
 #!/bin/bash
-# run the quick (or given) tier of several properties in parallel; logs under replays/logs
+# run the quick (or $TIER) tier of several properties, $PAR at a time; logs under replays/logs
 cd "$(dirname "$0")"
 tier=${TIER:-quick}
+par=${PAR:-4}
 mkdir -p replays/logs
 props="$@"
 if [ -z "$props" ]; then props=$(python3 -c "import json;print(' '.join(c['property_id'] for c in json.load(open('MANIFEST.json'))['checks']))"); fi
-for p in $props; do
-  ( python3 vcheck.py $p --tier $tier > replays/logs/$p.$tier.log 2>&1; echo "$p exit=$?" ) &
-  sleep 2
-done
-wait
+echo $props | tr ' ' '\n' | xargs -P $par -I{} sh -c "python3 vcheck.py {} --tier $tier > replays/logs/{}.$tier.log 2>&1; echo {} exit=\$?"
 for p in $props; do tail -1 replays/logs/$p.$tier.log; done
